@@ -1,5 +1,8 @@
 use std::sync::Arc;
+#[cfg(not(emmyluals_emmylua_analyzer_rust_verif))]
 use tokio::sync::RwLock;
+#[cfg(emmyluals_emmylua_analyzer_rust_verif)]
+use crate::verif_lock::RwLock;
 
 use emmylua_code_analysis::EmmyLuaAnalysis;
 
